@@ -64,7 +64,7 @@ def discharge_quick(ob: Obligation) -> str | None:
     ob.time_s = time.time() - t0
     if ob.kind == "vacuity":
         if r == z3.unsat:
-            ob.status, ob.backend, ob.detail = "vacuous", "z3", "precondition together with the axioms is unsatisfiable"
+            ob.status, ob.backend, ob.detail = ("dead-exit" if "exit-live" in ob.ident else "vacuous"), "z3", "path condition together with the axioms is unsatisfiable"
         else:
             ob.status, ob.backend, ob.detail = "discharged", "z3", f"satisfiability witness: {r}"
         return None
